@@ -132,6 +132,12 @@ def vto_tp(n, tp):
         if len(n.pfs[0].terms) == 9:      # 3-D: constant 3x3 matrix
             m = [float(geomgen.pt_eval(t, {})) for t in n.pfs[0].terms]
             return Rotate(vto_tp(n.kids[0], tp), [m[0:3], m[3:6], m[6:9]], n.pfs[1].py())
+        if (n.flags or {}).get("from_angle") is not None:
+            # the classmethod constructor; the volume model does not look at the matrix
+            return Rotate.from_angles(vto_tp(n.kids[0], tp), float(Fr(n.flags["from_angle"])),
+                                      rotate_around=None if n.flags.get("no_centre") else n.pfs[1].py())
+        if (n.flags or {}).get("no_centre"):
+            return Rotate(vto_tp(n.kids[0], tp), n.pfs[0].py(matrix=True))
         return Rotate(vto_tp(n.kids[0], tp), n.pfs[0].py(matrix=True), n.pfs[1].py())
     if k == "bdry":
         return vto_tp(n.kids[0], tp).boundary
@@ -334,7 +340,13 @@ class VGen:
             co, si = rng.choice(ROTS)
             refl = rng.random() < 0.15          # improper rotations (det = -1) preserve the measure as well
             m = PF([c(co), c(-si if not refl else si), c(si), c(co if not refl else -co)])
-            return Node("rotate", var, [m, PF([c(dy(rng, -1, 1)), c(dy(rng, -1, 1))])], [node])
+            fl = {}
+            r = rng.random()
+            if r < 0.2:
+                fl = dict(from_angle=str(Fr(rng.randint(-24, 24), 8)), no_centre=rng.random() < 0.4)
+            elif r < 0.3:
+                fl = dict(no_centre=True)
+            return Node("rotate", var, [m, PF([c(dy(rng, -1, 1)), c(dy(rng, -1, 1))])], [node], fl)
         return Node("translate", var, [self.g.vec([dy(rng, -2, 2) for _ in range(geomgen.DIM[var])])], [node])
 
     def known(self, depth, var):
@@ -1131,6 +1143,9 @@ def make_bool_case(ctx, idx):
             node = Node("rotate", var, [PF([c(co), c(-si), c(si), c(co)]), PF([c(dy(rng, -1, 1)), c(dy(rng, -1, 1))])], [node])
         else:
             node = vg.motion(node, var)
+    if rng.random() < 0.3:
+        # a user-set volume on the Boolean object: its density path does not consult volume(), the count law is unchanged
+        node = Node("uservol", None, [PF([c(dy(rng, 1, 9))])], [node])
     target = rng.choice([300, 600, 1000])
     d = Fr(round(target / max(mA, mB) * 4), 4)
     return dict(id=idx, mode="bool-density", dom=node.describe(), op=op, mA=mA, mB=mB, mI=mI, density=str(d), params=[], envs=[])
@@ -1184,6 +1199,208 @@ def check_bool_density(case, rep):
                      f"expected {mean:.1f} +- {tol:.1f}", dict(inp, how=how))
         elif got > upper:
             rep.fail(f"{how} density sampling (d = {d}) of a {op} returned {got} points, more than the {upper} proposals", dict(inp, how=how))
+
+
+# ---------------------------------------------------------------------------------------------
+# user-set volumes on every kind of object x density sampling through every route; the (density, volume) plane
+
+def routes(tp, dom, d, pr):
+    """(name, number of points) for the four public ways to sample with a density"""
+    out = []
+    for name, fn in (("domain.sample_random_uniform", lambda: dom.sample_random_uniform(d=d, params=pr)),
+                     ("domain.sample_grid", lambda: dom.sample_grid(d=d, params=pr)),
+                     ("RandomUniformSampler(density)", lambda: tp.samplers.RandomUniformSampler(dom, density=d).sample_points(pr)),
+                     ("GridSampler(density)", lambda: tp.samplers.GridSampler(dom, density=d).sample_points(pr))):
+        with warnings.catch_warnings():
+            warnings.simplefilter("ignore")
+            try:
+                out.append((name, len(common.call_with_timeout(10, fn)), None))
+            except common.CallTimeout:
+                out.append((name, None, "timeout"))
+            except Exception as e:  # noqa
+                out.append((name, None, f"{type(e).__name__}: {str(e)[:120]}"))
+    return out
+
+
+def small_prim(rng, var, size=None):
+    """constant primitive with dyadic data and exactly known (rational or pi-multiple) measure"""
+    dim = geomgen.DIM[var]
+    if dim == 1:
+        l = dy(rng, -2, 2)
+        return Node("interval", var, [PF([c(l)]), PF([c(l + (size or dy(rng, 1, 3)))])])
+    if dim == 3:
+        return Node("sphere", var, [PF([c(dy(rng, -1, 1)) for _ in range(3)]), PF([c(size or dy(rng, 0.5, 2))])])
+    kd = rng.choice(["par", "tri", "circle"])
+    if kd == "circle":
+        return Node("circle", var, [PF([c(dy(rng, -1, 1)), c(dy(rng, -1, 1))]), PF([c(size or dy(rng, 0.5, 2))])])
+    o = [dy(rng, -2, 2), dy(rng, -2, 2)]
+    w, h = size or dy(rng, 1, 3), dy(rng, 1, 3)
+    c1, c2 = [o[0] + w, o[1]], [o[0] + dy(rng, -1, 1), o[1] + h]
+    if rng.random() < 0.5:
+        c1, c2 = c2, c1
+    return Node(kd, var, [PF([c(a) for a in o]), PF([c(a) for a in c1]), PF([c(a) for a in c2])])
+
+
+def make_uv_case(ctx, idx):
+    rng = ctx.rng
+    obj = rng.choice(["prim", "bdry", "side", "point", "translate", "rotate", "nested", "bdry-of-motion", "inner", "prod", "evaluated",
+                      "sampler-rows"])
+    var = rng.choice(["x", "x", "y", "z"])
+    u = Fr(rng.randint(2, 60), 8)                      # the user's volume
+    d = Fr(rng.choice([1, 3, 5, 10, 21, 40]), rng.choice([1, 2, 4]))
+    vg = VGen(rng, [])
+    params, envs, sigma = [], [], None
+    uf = PF([c(u)])
+    if obj == "prim":
+        node = Node("uservol", None, [uf], [small_prim(rng, var)])
+    elif obj == "bdry":
+        node = Node("uservol", None, [uf], [Node("bdry", None, [], [small_prim(rng, var)])])
+    elif obj == "side":
+        node = Node("uservol", None, [uf], [Node(rng.choice(["bdryL", "bdryR"]), None, [], [small_prim(rng, "y")])])
+    elif obj == "point":
+        node = Node("uservol", None, [uf], [Node("point", var, [PF([c(dy(rng, -1, 1)) for _ in range(geomgen.DIM[var])])])])
+    elif obj in ("translate", "rotate", "nested", "bdry-of-motion", "inner"):
+        if obj == "rotate":
+            var = "x"
+        inner = small_prim(rng, var)
+        if obj == "inner":
+            node = vg.motion(Node("uservol", None, [uf], [inner]), var)
+        else:
+            m = vg.motion(inner, var)
+            while obj == "rotate" and m.kind != "rotate":
+                m = vg.motion(inner, var)
+            if obj == "nested":
+                m = vg.motion(m, var)
+            if obj == "bdry-of-motion":
+                m = Node("bdry", None, [], [m])
+            node = Node("uservol", None, [uf], [m])
+    elif obj == "prod":
+        node = Node("uservol", None, [uf], [Node("prod", None, [], [small_prim(rng, var), small_prim(rng, "s")])])
+    else:
+        # parameter-dependent shape and user volume f(t) = u + t: evaluated copy D(t = t0), or the sampler's loop over the rows
+        params = ["t"]
+        r = ("+", c(dy(rng, 0.5, 1.5)), geomgen.v("t"))
+        shape = Node("circle", "x", [PF([c(0), c(0)]), PF([r])]) if rng.random() < 0.5 else \
+            Node("interval", "y", [PF([c(0)]), PF([r])])
+        node = Node("uservol", None, [PF([("+", c(u), geomgen.v("t"))])], [shape])
+        ts = [Fr(rng.randint(0, 16), 16) for _ in range(1 if obj == "evaluated" else rng.choice([2, 3]))]
+        envs = [{"t": [str(t)]} for t in ts]
+        if obj == "evaluated":
+            sigma = {"t": [str(ts[0])]}
+    return dict(id=idx, mode="uservol-density", obj=obj, dom=node.describe(), params=params, envs=envs, sigma=sigma, density=str(d))
+
+
+def make_plane_case(ctx, idx):
+    """the (density, volume) plane over many orders of magnitude, and products d*v just above / below an integer"""
+    rng = ctx.rng
+    var = rng.choice(["y", "y", "x", "x", "z"])
+    how = rng.choice(["wide", "wide", "near-integer"])
+    if how == "wide":
+        size = Fr(rng.randint(1, 7), 2 ** rng.randint(0, 24))
+        node = small_prim(rng, var, size)
+        if rng.random() < 0.2:
+            node = Node("bdry", None, [], [node])
+        m = measure(node, {})
+        # density: a dyadic number such that 1e-8 <~ d*measure <~ 3000
+        target = 2.0 ** rng.randint(-26, 11) * rng.choice([1, 3, 5])
+        e = round(math.log2(target / m))
+        d = Fr(rng.choice([1, 3, 5, 7])) * (Fr(2) ** e)
+        while float(d) * m > 4000:
+            d /= 2
+    else:
+        N, e, j = rng.randint(0, 200), rng.randint(10, 15), rng.randint(-6, 6)
+        x = Fr(N) + rng.choice([1, -1]) * Fr(1, 2 ** e)
+        if x <= 0:
+            x = Fr(1, 2 ** e)
+        d = Fr(2) ** j
+        v = x / d                         # exactly representable in float32 (<= 23 significant bits)
+        kind = rng.choice(["interval", "par", "tri"])
+        if kind == "interval":
+            node = Node("interval", "y", [PF([c(0)]), PF([c(v)])])
+        else:
+            f = 1 if kind == "par" else 2
+            node = Node(kind, "x", [PF([c(0), c(0)]), PF([c(v * f), c(0)]), PF([c(0), c(1)])])
+    return dict(id=idx, mode="count-plane:" + how, obj=how, dom=node.describe(), params=[], envs=[], sigma=None, density=str(d))
+
+
+def check_routes(case, rep):
+    """expected number of points = exact ceil(d * volume()) (floor for a product), through all four routes"""
+    tp = common.use_repo()
+    import torch
+    node = geomgen.from_json(case["dom"])
+    d = Fr(case["density"])
+    inp = dict(mode=case["mode"], obj=case["obj"], dom=case["dom"], expression=vtokens(node), params=case["params"], envs=case["envs"],
+               sigma=case.get("sigma"), density=case["density"])
+    rep.count(case["mode"].split(":")[0] + ":" + case["obj"])
+    try:
+        dom = vto_tp(node, tp)
+    except Exception as e:  # noqa
+        rep.count("construction-raised")
+        return
+    envs = [fenv(e) for e in case["envs"]]
+    pr = mk_params(tp, case["params"], case["envs"])
+    if case.get("sigma"):
+        dom = dom(**{p: torch.tensor([[float(Fr(v[0]))]]) for p, v in case["sigma"].items()})
+        pr = tp.spaces.Points.empty()
+        ms = [measure(node, fenv(case["sigma"]))]
+    else:
+        ms = [measure(node, e) for e in (envs or [{}])]
+    inner = node.kids[0] if node.kind == "uservol" else node
+    is_prod = inner.kind == "prod"
+    leaf, onb = inner, False
+    while leaf.kind in ("translate", "rotate", "bdry", "uservol"):        # the primitive whose sampler finally runs
+        onb = onb or leaf.kind == "bdry"
+        leaf = leaf.kids[0]
+
+    def want(m):
+        ex = None
+        try:
+            ex = measure(node, fenv(case["sigma"]) if case.get("sigma") else (envs[0] if len(envs) == 1 else {}), exact=True) if len(ms) == 1 else None
+        except (NotRational, KeyError):
+            ex = None
+        if ex is not None:
+            x = d * ex
+            return {math.floor(x)} | ({math.ceil(x)} if not is_prod else set()) if is_prod else {math.ceil(x)}
+        x = float(d) * m
+        return int_candidates(x, ceil=not is_prod)
+    totals = None
+    if len(ms) == 1:
+        totals = want(ms[0])
+    else:
+        totals = {0}
+        for m in ms:
+            totals = {a + b for a in totals for b in int_candidates(float(d) * m)}
+    torch.manual_seed(case["id"])
+    exact_grid = leaf.kind in ("interval", "circle", "sphere", "point", "bdryL", "bdryR") or onb
+    for name, got, err in routes(tp, dom, float(d), pr):
+        grid = "rid" in name
+        if len(ms) > 1 and name.startswith("domain."):
+            continue                      # several rows: only the samplers loop over them
+        if err:
+            if grid and (is_prod or any(kk in ("translate", "rotate") for kk in kinds(node)) and err != "timeout"):
+                rep.count("routes:grid-not-available-or-raised")       # product grids are not implemented; grids of motions: C01/C02
+                continue
+            if is_prod and max(totals) == 0:
+                rep.count("routes:product-asked-for-0-points(raises; n = 0 is C02's business)")
+                continue
+            if "Sampler" in name and is_prod:
+                rep.count("routes:sampler-on-product-raised")
+                continue
+            rep.fail(f"{name} with density {d} on a domain with volume() = {ms[0]:.6g} failed: {err}", dict(inp, route=name))
+            continue
+        if grid and not exact_grid:
+            if got > max(totals):
+                rep.fail(f"{name} with density {d} returned {got} points, more than ceil(d*volume()) = {max(totals)} (volume() = {ms[0]:.6g})",
+                         dict(inp, route=name))
+            continue
+        if leaf.kind == "tri" and not onb and not grid:
+            n0 = max(totals)
+            if abs(got - n0) > 8 * math.sqrt(n0 / 2 + 1) + 2:
+                rep.fail(f"{name} with density {d} returned {got} points on a triangle, expected about {n0}", dict(inp, route=name))
+            continue
+        if got not in totals:
+            rep.fail(f"{name} with density {d} returned {got} points; {'floor' if is_prod else 'ceil'}(d*volume()) = {sorted(totals)} "
+                     f"(d*volume() = {float(d) * sum(ms):.9g}, {len(ms)} row(s))", dict(inp, route=name))
 
 
 def fixed_cases():
@@ -1243,6 +1460,13 @@ def run(ctx, rep, cases=None):
                                               model=rs[0][1], verdict="ok" if (nf, nd) == (len(rep.failures), len(rep.disagreements)) else "differs"),
                  kind=cs["mode"])
     if poly:
+        for i in range(ctx.scale(160, 1600)):
+            cs = (make_uv_case if i % 2 == 0 else make_plane_case)(ctx, 600000 + i)
+            nf = len(rep.failures)
+            check_routes(cs, rep)
+            rep.case(dict(dom=cs["dom"], d=cs["density"], envs=cs["envs"]), True,
+                     sample=dict(expression=vtokens(geomgen.from_json(cs["dom"])), density=cs["density"], object=cs["obj"],
+                                 verdict="ok" if nf == len(rep.failures) else "fails"), kind=cs["mode"])
         for i in range(ctx.scale(90, 900)):
             cs = make_bool_case(ctx, 500000 + i)
             nf = len(rep.failures)
@@ -1257,6 +1481,9 @@ def replay(ctx, obj):
     rep = common.Report(ctx)
     lean = common.lean_check("C10")
     inp = (obj.get("failing_input") or obj.get("first"))["input"]
+    if str(inp.get("mode", "")).startswith(("uservol-density", "count-plane")):
+        check_routes(dict(inp, id=0), rep)
+        return common.finish(ctx, rep, lean)
     if inp.get("mode") == "bool-density":
         check_bool_density(dict(inp, id=0), rep)
         return common.finish(ctx, rep, lean)
